@@ -43,6 +43,43 @@ MUTATIONS = [
     ("c03-init-sorted", "core/objects.py", "                for init_task in self.init_tasks:\n                    hasher.update(init_task.__xpm__.raw_identifier.all)", "                for init_id in sorted(i.__xpm__.raw_identifier.all for i in self.init_tasks):\n                    hasher.update(init_id)", ["C03", "C01"]),
     ("c03-enum-member-only", "core/objects.py", 'f"{k.__module__}.{k.__qualname__ }:{value.name}".encode("utf-8"),', 'f"{value.name}".encode("utf-8"),', ["C03", "C01"]),
     ("c03-no-arg-name", "core/objects.py", "                # Hash name\n                self.update(argument.name)\n", "", ["C03", "C01"]),
+    # C04
+    ("c04-skip-dict-values", "core/objects.py", "        for key, val in value.items():\n            updatedependencies(dependencies, key, path, taskids)\n            updatedependencies(dependencies, val, path, taskids)", "        for key, val in value.items():\n            updatedependencies(dependencies, key, path, taskids)", ["C04"]),
+    ("c04-no-init-deps", "core/objects.py", "        for init_task in self.init_tasks:\n            init_task.__xpm__.updatedependencies(\n                dependencies, path + [\"__init_tasks__\"], taskids\n            )", "        pass", ["C04"]),
+    ("c04-running-is-ok", "scheduler/base.py", "        if self.origin.state == JobState.DONE:\n            return DependencyStatus.OK", "        if self.origin.state in (JobState.DONE, JobState.RUNNING):\n            return DependencyStatus.OK", ["C04"]),
+    ("c04-ready-off-by-one", "scheduler/base.py", "        if self.unsatisfied == 0 and self.state.notstarted():", "        if self.unsatisfied <= 1 and self.state.notstarted():", ["C04", "C08"]),
+    ("c04-no-pretask-deps", "core/objects.py", "        for pre_task in self.pre_tasks:\n            pre_task.__xpm__.updatedependencies(\n                dependencies, path + [\"__pre_tasks__\"], taskids\n            )", "        pass", ["C04"]),
+    # C05
+    ("c05-register-never-returns", "scheduler/base.py", "                logger.warning(\"Job %s already submitted\", job.identifier)\n                return other", "                logger.warning(\"Job %s already submitted\", job.identifier)\n                self.xp.unfinishedJobs += 1", ["C05"]),
+    (
+        "c05-no-done-shortcircuit",
+        "scheduler/base.py",
+        ["        if job.donepath.exists():\n            job.state = JobState.DONE\n\n        # Check if we have a running process", "        # Check if done\n        if job.donepath.exists():\n            job.state = JobState.DONE\n"],
+        ["        # Check if we have a running process", "        # Check if done\n"],
+        ["C05"],
+    ),
+    ("c05-ignore-pidfile", "commandline.py", "        if self.pidpath.is_file():\n            # Get from pidpath file", "        if False and self.pidpath.is_file():\n            # Get from pidpath file", ["C05"]),
+    # C06
+    ("c06-revert-fix2", "scheduler/base.py", "        if self.unsatisfied == 0 and self.state.notstarted():", "        if self.unsatisfied == 0:", ["C06"]),
+    ("c06-revert-fix3", "scheduler/base.py", "                self.xp.unfinishedJobs += 1\n                self.jobs[job.identifier] = job\n            else:", "            else:", ["C06"]),
+    ("c06-revert-fix4", "scheduler/base.py", "                if state == JobState.WAITING and job.unsatisfied == 0:", "                if False:", ["C06", "C09"]),
+    ("c06-no-notify-exit", "scheduler/base.py", "            logging.debug(\"Updated number of unfinished jobs\")\n            self.xp.central.exitCondition.notify_all()", "            logging.debug(\"Updated number of unfinished jobs\")", ["C06"]),
+    ("c06-nonzero-is-done", "scheduler/base.py", "                    state = JobState.DONE if code == 0 else JobState.ERROR\n\n            except JobError:", "                    state = JobState.DONE\n\n            except JobError:", ["C06", "C07"]),
+    # C07
+    ("c07-fail-not-error", "scheduler/base.py", "            if not self.state.finished():\n                self.state = JobState.ERROR\n                self.failure_status = JobFailureStatus.DEPENDENCY\n                self._readyEvent.set()", "            pass", ["C07", "C06"]),
+    ("c07-no-dependents-recheck", "scheduler/base.py", "            for dependency in dependents:\n                logger.debug(\"Checking dependency %s\", dependency)\n                self.loop.call_soon(dependency.check)", "            pass", ["C07", "C06", "C04"]),
+    ("c07-no-failedjobs", "scheduler/base.py", "        if job.state != JobState.DONE:\n            self.xp.failedJobs[job.identifier] = job", "        pass", ["C07"]),
+    # C08
+    ("c08-acquire-no-update", "tokens.py", "        with self.lock, self.ipc_lock:\n            self._update()\n            if self.available < dependency.count:", "        with self.lock, self.ipc_lock:\n            if self.available < dependency.count:", ["C08"]),
+    ("c08-lockerror-swallowed", "scheduler/base.py", "                                dependency.check()\n                                return JobState.WAITING", "                                pass", ["C08"]),
+    ("c08-acquire-no-check", "tokens.py", "            if self.available < dependency.count:\n                logger.warning(\n                    \"Not enough available", "            if False:\n                logger.warning(\n                    \"Not enough available", ["C08"]),
+    # C09
+    ("c09-no-file-delete", "tokens.py", "                self.available += tf.count\n                logging.debug(\"%s: available %d\", self, self.available)\n                tf.delete()", "                self.available += tf.count\n                logging.debug(\"%s: available %d\", self, self.available)", ["C09"]),
+    ("c09-abort-keeps-locks", "locking.py", "        if not self.detached and self._level == 1:\n            self._level -= 1\n            self._release()", "        if not self.detached and self._level == 1 and not getattr(self, 'locks', None):\n            self._level -= 1\n            self._release()", ["C09", "C06"]),
+    ("c09-notify-threshold", "tokens.py", "        def check(dependency: Dependency):\n            if self.available > 0:", "        def check(dependency: Dependency):\n            if self.available > 1:", ["C09", "C06"]),
+    ("c09-revert-fix5", "tokens.py", "        except ValueError:\n            # The token file has been created by another process but is not\n            # written yet: a \"modified\" event will follow\n            logger.debug(\"Token file %s is not complete yet\", path)\n", "", ["C09"]),
+    ("c09-revert-fix16", "tokens.py", "                    dependency.name,\n                )\n            else:", "                    dependency.name,\n                )\n                return\n            else:", ["C09", "C06"]),
+    ("c09-reclaim-no-delete", "tokens.py", "                process.wait()\n\n            self.delete()", "                process.wait()", ["C09"]),
     # C18
     ("c18-revert-cpu", "launcherfinder/specs.py", "return self.memory < other.memory or self.cores < other.cores", "return self.memory < other.memory and self.cores < other.cores", ["C18"]),
     ("c18-revert-and", "launcherfinder/specs.py", "        newself = deepcopy(self)\n        newself._add(other)", "        newself = copy(self)\n        newself._add(other)", ["C18"]),
@@ -57,7 +94,7 @@ def run(name, file, old, new, checks):
     dst = Path("/dev/shm") / f"verif-mut-{os.getpid()}"
     if dst.exists():
         shutil.rmtree(dst)
-    shutil.copytree("/repo/src", dst / "src", ignore=shutil.ignore_patterns("__pycache__", "tests"))
+    shutil.copytree("/repo/src", dst / "src", ignore=shutil.ignore_patterns("__pycache__"))
     p = dst / SRC / file
     s = p.read_text()
     olds, news = ([old], [new]) if isinstance(old, str) else (old, new)
@@ -75,7 +112,7 @@ def run(name, file, old, new, checks):
             pr = subprocess.run([str(HERE / "vcheck"), c, "--tier", "quick"], env=env, capture_output=True, text=True, cwd=str(HERE), timeout=1800)
             viol = [l for l in pr.stdout.splitlines() if l.startswith("VIOLATION")]
             mech = [l for l in pr.stdout.splitlines() if l.startswith("# violations by mechanism")]
-            res["results"][c] = {"rc": pr.returncode, "violations": len(viol), "mech": mech[:1], "wall": round(time.time() - t0, 1), "tail": pr.stdout.splitlines()[-1:] if pr.returncode not in (0, 1) else []}
+            res["results"][c] = {"rc": pr.returncode, "violations": len(viol), "mech": mech[:1], "wall": round(time.time() - t0, 1), "tail": pr.stdout.splitlines()[-2:] if pr.returncode not in (0, 1) else []}
     finally:
         shutil.rmtree(dst, ignore_errors=True)
     return res
